@@ -13,6 +13,7 @@
   two differ.
 -/
 import ControlModel.Model.Writer
+import ControlModel.Model.Registry
 import ControlModel.Spec.C19
 
 namespace Driver.C19
@@ -262,10 +263,122 @@ def stormLine (n ok hung : Nat) : String :=
   let spec := hung == 0 && ok == n
   s!"{model}\t{if spec then 1 else 0}\t{if hung > 0 && ok + hung == n then "close_lost_wakeup" else "-"}"
 
+
+/-! ## the registry stream: `(registry (callers N) (topics T) (rounds R) (relook b) (gate b) (lat us))`
+
+  The registry model (`Registry.run codeCfg`) is run on complete calls, one after the other — the
+  calls are atomic for each other (`C19_registry_get_is_atomic`) and every interleaving hands all
+  callers of a topic the same writer (`C19_registry_one_writer_per_topic`), so the order does not
+  show in the observation.  Per round: every caller of every topic calls createOrGetWriter, with
+  relook once more, then one caller calls ClearEventWriters.  What the topic's writer delivers is
+  the writer model's answer (`Writer.runStrict codeCfg`) on the schedule rebuilt from the order in
+  which the implementation's broker was handed the events, closed by the shutdown.  The broker's
+  behaviour (gate, latency) is a parameter the model does not look at. -/
+
+structure RegIn where
+  callers : Nat
+  topics : Nat
+  rounds : Nat
+  relook : Bool
+
+def parseRegIn : SExp → Option RegIn
+  | .list [.atom "registry", .list [.atom "callers", n], .list [.atom "topics", t], .list [.atom "rounds", r],
+           .list [.atom "relook", b], .list [.atom "gate", g], .list [.atom "lat", l]] => do
+    let _ ← g.nat?
+    let _ ← l.nat?
+    pure { callers := (← n.nat?), topics := (← t.nat?), rounds := (← r.nat?), relook := (← b.nat?) != 0 }
+  | _ => none
+
+def parseTopicObs : SExp → Option TopicObs
+  | .list [.atom "topic", .list (.atom "first" :: f), .list (.atom "again" :: a), .list (.atom "closed" :: c),
+           .list (.atom "accepted" :: ac), .list (.atom "delivered" :: d)] => do
+    let delivered ← d.mapM? fun
+      | .list [p, q] => do pure ((← p.nat?), (← q.nat?))
+      | _ => none
+    pure { first := (← f.mapM? SExp.nat?), again := (← a.mapM? SExp.nat?), closed := (← c.mapM? SExp.bool?),
+           accepted := (← ac.mapM? SExp.nat?), delivered }
+  | _ => none
+
+def parseRegObs : SExp → Option (List (List TopicObs))
+  | .list (.atom "registry" :: rounds) =>
+    rounds.mapM? fun
+      | .list (.atom "round" :: ts) => ts.mapM? parseTopicObs
+      | _ => none
+  | _ => none
+
+/-- Number the writers by first appearance. -/
+def renumber (ws : List Nat) : List Nat := Id.run do
+  let mut seen : List Nat := []
+  let mut out : Array Nat := #[]
+  for w in ws do
+    match seen.idxOf? w with
+    | some i => out := out.push i
+    | none => out := out.push seen.length; seen := seen ++ [w]
+  return out.toList
+
+def printTopicObs (x : TopicObs × Bool) : SExp :=
+  let o := x.1
+  .list [.atom "topic", .list (.atom "first" :: o.first.map SExp.ofNat), .list (.atom "again" :: o.again.map SExp.ofNat),
+         .list (.atom "closed" :: o.closed.map SExp.ofBool), .list (.atom "accepted" :: o.accepted.map SExp.ofNat),
+         if x.2 then .list (.atom "delivered" :: o.delivered.map fun e => SExp.list [.ofNat e.1, .ofNat e.2])
+         else .list [.atom "delivered", .atom "REJECT:no-run-of-one-writer-closed-by-the-shutdown-delivers-like-that"]]
+
+/-- What the topic's ONE writer delivers by the time the shutdown's Close has returned, for the
+    order in which the implementation's broker got the events; `none`: no run of the writer model
+    ends like that (an event accepted and not delivered when Close has returned, a producer's
+    events out of order or twice). -/
+def topicDelivered (accepted : List Nat) (implDelivered : List Ev) : Option (List Ev) := do
+  let o : Obs := { accepted, batches := implDelivered.map fun e => [(e.1, e.2, 0)], status := .returned,
+                   leftChan := 0, leftBuf := 0, inflight := 0 }
+  let sched ← schedOf accepted o
+  let s ← runStrict codeCfg init sched
+  if s.closeCompleted then pure (delivered s) else none
+
+/-- The model's observation for the registry stream; the implementation's observation is used
+    only for the order of the delivered events per topic. -/
+def registryModel (ri : RegIn) (impl : List (List TopicObs)) : List (List (TopicObs × Bool)) := Id.run do
+  let mut s : Registry.State := Registry.init
+  let mut out : Array (List (TopicObs × Bool)) := #[]
+  for r in [0:ri.rounds] do
+    let implRound := impl.getD r []
+    let topicId := fun (t : Nat) => r * ri.topics + t
+    -- first look-ups, then (relook) second look-ups, complete calls one after the other
+    let lookups := (List.range ri.topics).flatMap fun t =>
+      (List.range ri.callers).flatMap fun c => Registry.getCall (t * ri.callers + c) (topicId t)
+    let sched := if ri.relook then lookups ++ lookups else lookups
+    let s1 := Registry.run Registry.codeCfg s sched
+    let s2 := Registry.run Registry.codeCfg s1 (Registry.clearCall 0)
+    let mut row : Array (TopicObs × Bool) := #[]
+    for t in [0:ri.topics] do
+      let hf := Registry.handedFor s1 (topicId t)
+      let ids := renumber hf
+      let accepted := List.replicate ri.callers (if ri.relook then 2 else 1)
+      let implDelivered := match implRound[t]? with
+        | some o => o.delivered
+        | none => []
+      let d := topicDelivered accepted implDelivered
+      row := row.push ({ first := ids.take ri.callers, again := ids.drop ri.callers,
+                         closed := (Registry.writersOf s1 (topicId t)).map fun w => s2.closed.contains w,
+                         accepted, delivered := d.getD [] }, d.isSome)
+    out := out.push row.toList
+    s := s2
+  return out.toList
+
+def registryLine (inp impl : SExp) : String :=
+  match parseRegIn inp, parseRegObs impl with
+  | some ri, some o =>
+    let spec := SpecReg o
+    let model := toString (SExp.list (.atom "registry" :: (registryModel ri o).map
+      fun (r : List (TopicObs × Bool)) => SExp.list (.atom "round" :: r.map printTopicObs)))
+    s!"{model}\t{if spec then 1 else 0}\t-"
+  | none, _ => "BADINPUT\t0\t-"
+  | _, none => "REJECT:unparsable-observation\t0\t-"
+
 def processLine (line : String) : String :=
   match SExp.fields line with
   | [inp, impl] =>
     match SExp.parse inp, SExp.parse impl with
+    | some (.list (.atom "registry" :: rest)), some implX => registryLine (.list (.atom "registry" :: rest)) implX
     | some (.list [.atom "storm", n]), some (.list [.atom "storm", n', .atom "ok", a, .atom "hung", b]) =>
       match n.nat?, n'.nat?, a.nat?, b.nat? with
       | some n, some n', some a, some b => if n == n' then stormLine n a b else "REJECT:storm-size\t0\t-"
